@@ -185,16 +185,19 @@ PROFILES["C07"]["rule"] = PROFILES["C07"]["rule"] + (" The C07 check also runs t
 # C02 also runs the user-restore profile: after an operator override (a Restore that lost leadership half-way) servers
 # are repaired by snapshots that end below what they had applied; the committed-history oracles are off there, but
 # "what an FSM is handed next is the next entry of its server's own log" still is judged (seeded change C02-d)
-PROFILES["C02"]["scenarios"] = PROFILES["C02"]["scenarios"] + [s1("C20", quick_runs=700, quick_budget_s=20, thorough_budget_s=500)]
+# WITHDRAWN at the end of the session: at seed 3 (run 51 of this scenario) the committed-history oracles reported
+# C02/fsm-divergence in a run with several user Restores, which could not be triaged in the time left (suspected oracle
+# gap: a Restore whose caller crashed after its snapshot became durable never marks the run as overridden). Until that
+# is settled the C02 check does not run the user-restore profile; seeded change C02-d is a recorded miss again.
+# PROFILES["C02"]["scenarios"] = PROFILES["C02"]["scenarios"] + [s1("C20", quick_runs=700, quick_budget_s=20, thorough_budget_s=500)]
 
 # additions of the last session to the level texts (MANIFEST only)
 LEVEL_TEXT["C01"] += "; initial voters that are bootstrapped live after they have started (and voted); servers whose clocks run at different rates"
-LEVEL_TEXT["C02"] += "; after an operator override (user Restore that lost leadership) what an FSM is handed next is still checked against its server's own log"
 LEVEL_TEXT["C09"] += "; faults placed inside the call (leader cut from its voters, from all voters but one with the next heartbeat to it failing, a voter removed meanwhile)"
 LEVEL_TEXT["C10"] += "; with RestoreCommittedLogs also the committed configuration after start-up, and a store variant whose stored commit index may exceed the last index"
 LEVEL_TEXT["C14"] += " (static partitions, a server cut off right after TimeoutNow, and a minority of two whose second member changes)"
 LEVEL_TEXT["C16"] += "; msgpack time formats mixed within a run (rolling upgrade); in runs in which nothing is injected every exchange must succeed"
 LEVEL_TEXT["C17"] += "; in the calm profile a call handed to a leader that has lost its voter quorum must end by the time twice the lease has passed"
 LEVEL_TEXT["C20"] += "; the restored state must sit above every index the restoring server had used"
-for _p in ("C01", "C02", "C09", "C10", "C14", "C16", "C17", "C20"):
+for _p in ("C01", "C09", "C10", "C14", "C16", "C17", "C20"):
     PROFILES[_p]["level_text"] = LEVEL_TEXT[_p]
